@@ -357,3 +357,6 @@ class GHE(BaseGHE):
         )
 
         self.bhe.b.H = returned_height
+        # the root solver's last evaluation is not necessarily at the returned height (clamped at the
+        # minimum height it is at the maximum): make the stored temperatures those of the returned height
+        self.simulate(method=method)
